@@ -51,6 +51,10 @@ class Exec(ExprMixin, CallMixin, BuiltinMixin, StmtMixin):
         g = theory.ghosts(self.ctx)
         return VInt(g.height(self.coerce(args[0], REF('Feature')).t))
 
+    def prim_owner_rel(self, args, path, node):
+        g = theory.ghosts(self.ctx)
+        return VRef('Relation', g.owner(self.coerce(args[0], REF('Feature')).t))
+
     def prim_implies(self, args, path, node):
         return VBool(z3.Implies(self.truth(args[0], path), self.truth(args[1], path)))
 
@@ -62,8 +66,13 @@ class Exec(ExprMixin, CallMixin, BuiltinMixin, StmtMixin):
         return VBool(self.identical(args[0], args[1]))
 
     def prim_seq_eq(self, args, path, node):
-        ta, _ = self.to_seq(args[0], path)
-        tb, _ = self.to_seq(args[1], path)
+        a, b = args
+        if isinstance(a, VList) and not a.items:
+            return VBool(self.length(b, path) == 0)
+        if isinstance(b, VList) and not b.items:
+            return VBool(self.length(a, path) == 0)
+        ta, _ = self.to_seq(a, path)
+        tb, _ = self.to_seq(b, path)
         return VBool(ta == tb)
 
     def prim_node_size(self, args, path, node):
@@ -198,7 +207,7 @@ def build(index, contracts, specs, rec, fid):
                 g = ex.eval_clause(con, clause, cenv, p)
             except PathAbort:
                 continue
-            ob = ctx.oblige(p, 'post', f'postcondition {name}', g, clause.lineno, tactic=con.tactics.get(name), meta={'clause': name})
+            ob = ctx.oblige(p, f'post:{name}', f'postcondition {name}', g, clause.lineno, tactic=con.tactics.get(name), meta={'clause': name})
     if con.raises_when is not None and con.raises:
         # the exception must be raised when the condition holds: no normal return under it
         for p in ends:
@@ -223,10 +232,18 @@ def _solver(ctx, hyps, goal, timeout_ms):
     return s
 
 
-def check_valid(ctx, hyps, goal, timeout_ms=None, use_cli=True):
+def check_valid(ctx, hyps, goal, timeout_ms=None, use_cli=True, full=True):
     """returns (verdict, backend, seconds, model_or_reason)"""
     timeout_ms = timeout_ms or Z3_TIMEOUT_MS
     t0 = time.time()
+    # phase 1: e-matching only (fast when provable, gives up quickly otherwise)
+    s = _solver(ctx, hyps, goal, min(timeout_ms, 4000))
+    s.set('smt.mbqi', False)
+    r = s.check()
+    if r == z3.unsat:
+        return 'proved', 'z3-5.1(api)', time.time() - t0, None
+    if not full:
+        return 'unknown', 'z3-5.1(api)', time.time() - t0, 'e-matching only'
     s = _solver(ctx, hyps, goal, timeout_ms)
     r = s.check()
     dt = time.time() - t0
@@ -312,13 +329,13 @@ def induction(ctx, hyps, goal, timeout_ms):
 def discharge(ctx, ob, timeout_ms=None):
     timeout_ms = timeout_ms or Z3_TIMEOUT_MS
     res = {'id': ob.id, 'kind': ob.kind, 'desc': ob.desc, 'lineno': ob.lineno}
-    v, be, dt, extra = check_valid(ctx, ob.hyps, ob.goal, timeout_ms, use_cli=(ob.kind in ('post', 'pre')))
+    v, be, dt, extra = check_valid(ctx, ob.hyps, ob.goal, timeout_ms, use_cli=(ob.kind.startswith('post') or ob.kind == 'pre'))
     res.update(verdict=v, backend=be, seconds=round(dt, 3))
     if v == 'refuted':
         res['model'] = model_summary(extra)
     elif v == 'unknown':
         res['reason'] = str(extra)
-    if v != 'proved' and ob.kind in ('post', 'inv_preserve', 'inv_init', 'pre'):
+    if v != 'proved' and (ob.kind.startswith('post') or ob.kind in ('inv_preserve', 'inv_init', 'pre')):
         ind = induction(ctx, ob.hyps, ob.goal, timeout_ms)
         if ind is not None and ind[0] == 'proved':
             res.update(verdict='proved', backend=ind[1], seconds=round(dt + ind[2], 3))
@@ -362,6 +379,8 @@ def verify(fid, index=None, loaded=None, timeout_ms=None):
         ctx, ex, info = build(index, contracts, specs, rec, fid)
     except OutOfReach as e:
         out.update(status='OUT-OF-REACH', reason=str(e), obligations=[], seconds=round(time.time() - t0, 2))
+        if os.environ.get('PYVC_TRACE'):
+            out['trace'] = traceback.format_exc()
         return out
     except RecursionError as e:
         out.update(status='OUT-OF-REACH', reason='recursion limit in executor', obligations=[], seconds=round(time.time() - t0, 2))
@@ -370,17 +389,53 @@ def verify(fid, index=None, loaded=None, timeout_ms=None):
         out.update(status=info['status'], reason=info.get('reason'), obligations=[], seconds=round(time.time() - t0, 2))
         return out
     out.update(status='OK', hash=info['hash'], file_sha256=info['file_sha256'], paths=info['paths'], returns=info['returns'])
-    vac = vacuity(ctx, info['entry_pc'])
-    out['hypotheses_sat'] = vac
-    if vac == 'unsat':
-        out.update(status='ENGINE-ERROR', reason='contradictory hypotheses (vacuous contract)')
-        return out
     if info['returns'] == 0 and not con.raises:
         out.update(status='ENGINE-ERROR', reason='no path reaches a return (vacuous)')
         return out
     results = [discharge(ctx, ob, timeout_ms) for ob in ctx.obligations]
+    # known-finding regions: re-prove failing obligations on the complement of the recorded regions
+    bad = [(ob, r) for ob, r in zip(ctx.obligations, results) if r['verdict'] != 'proved']
+    if bad and con.known:
+        p0 = Path(info['entry_pc'], dict(ex.entry_env))
+        regions = []
+        for kid, fn in con.known:
+            try:
+                regions.append(ex.eval_clause(con, fn, dict(ex.entry_env), p0))
+            except Exception as e:  # noqa: BLE001
+                out.setdefault('notes', []).append(f'known region {kid} not translatable: {e}')
+        if regions:
+            outside = z3.Not(z3.Or(*regions))
+            for ob, r in bad:
+                v, be, dt, _ = check_valid(ctx, list(ob.hyps) + [outside], ob.goal, timeout_ms, use_cli=False)
+                if v != 'proved':
+                    ind = induction(ctx, list(ob.hyps) + [outside], ob.goal, timeout_ms)
+                    if ind is not None and ind[0] == 'proved':
+                        v, be = 'proved', ind[1]
+                if v == 'proved':
+                    r['verdict_plain'] = r['verdict']
+                    r['verdict'] = 'proved-outside-known'
+                    r['known'] = [k for k, _ in con.known]
+                    r['backend'] = be
+    # refutation of what is left: ground-instantiated axioms -> candidate model -> heap description
+    from .refute import refute, dump_heap
+    for ob, r in zip(ctx.obligations, results):
+        if r['verdict'] in ('proved', 'proved-outside-known'):
+            continue
+        try:
+            hyps = list(ob.hyps)
+            if con.known and 'outside' in dir():
+                hyps = hyps + [outside]
+            m, n_inst = refute(ctx, hyps, ob.goal)
+            if m is not None:
+                if r['verdict'] == 'unknown':
+                    r['verdict'] = 'refuted-candidate'
+                    r['backend'] = f'z3-5.1(api) axioms instantiated on ground terms ({n_inst} instances)'
+                r['counterexample'] = dump_heap(ctx, ex, m, ex.entry_env)
+        except Exception as e:  # noqa: BLE001
+            r['refute_error'] = f'{type(e).__name__}: {e}'
+
     # canary: a false postcondition must not be provable
-    canary = check_valid(ctx, list(info['entry_pc']), z3.BoolVal(False), 2000, use_cli=False)[0]
+    canary = check_valid(ctx, list(info['entry_pc']), z3.BoolVal(False), 2000, use_cli=False, full=False)[0]
     out['canary_false_provable'] = (canary == 'proved')
     if canary == 'proved':
         out.update(status='ENGINE-ERROR', reason='false is provable from the hypotheses')
